@@ -32,6 +32,28 @@ theorem elem_sound (T : TiledTab src σ N) {ek f ts e rest} (hN : ts.length ≤ 
 @[reducible] def PostSm (src : List Nat) (σ : SpanTab) (ts : List Tok) (s : RStmt) (rest : List Tok) : Prop :=
   rest.length < ts.length ∧ WS src σ ts.length (rest.length + 1) s ∧ s.range = (S σ ts.length, E σ (rest.length + 1))
 
+/-- the end the grammar action of a compound statement derives from its children (`none` for the other statements):
+    the end of the last statement of its last non-empty block (`body.last().unwrap().end()`, `orelse`, `finalbody`,
+    `handlers`, the last case) -/
+def derivedEnd : RStmt → Option Nat
+  | .functionDef _ _ _ b _ _ _ => some (lastEnd b)
+  | .asyncFunctionDef _ _ _ b _ _ _ => some (lastEnd b)
+  | .classDef _ _ _ _ b _ _ => some (lastEnd b)
+  | .with _ _ b => some (lastEnd b)
+  | .asyncWith _ _ b => some (lastEnd b)
+  | .for _ _ _ b o => some (if o.isEmpty then lastEnd b else lastEnd o)
+  | .asyncFor _ _ _ b o => some (if o.isEmpty then lastEnd b else lastEnd o)
+  | .while _ _ b o => some (if o.isEmpty then lastEnd b else lastEnd o)
+  | .if _ _ b o => some (if o.isEmpty then lastEnd b else lastEnd o)
+  | .match _ _ cs => some (casesEnd cs)
+  | .try _ _ hs o f => some (if !f.isEmpty then lastEnd f else if !o.isEmpty then lastEnd o else handlersEnd hs)
+  | .tryStar _ _ hs o f => some (if !f.isEmpty then lastEnd f else if !o.isEmpty then lastEnd o else handlersEnd hs)
+  | _ => none
+
+theorem isEmpty_false_of_ne {l : List RStmt} (h : l ≠ []) : l.isEmpty = false := by cases l <;> simp_all
+grind_pattern isEmpty_false_of_ne => l.isEmpty
+@[grind =] theorem isEmpty_nil' : ([] : List RStmt).isEmpty = true := rfl
+
 /-- a statement sequence (a line, a block, a suite): in consecutive windows inside the tokens consumed; it ends at the end
     of a token (`lastEnd` is `E σ k`) that belongs to the sequence -/
 @[reducible] def PostSs (src : List Nat) (σ : SpanTab) (ts : List Tok) (ss : List RStmt) (rest : List Tok) : Prop :=
@@ -46,15 +68,17 @@ theorem elem_sound (T : TiledTab src σ N) {ek f ts e rest} (hN : ts.length ≤ 
     `def` / `class` / `async` behind the decorators) and ends at the end of a token that belongs to it -/
 @[reducible] def PostC (src : List Nat) (σ : SpanTab) (ts : List Tok) (s : RStmt) (rest : List Tok) : Prop :=
   rest.length < ts.length ∧
-    ∃ j k, rest.length + 1 ≤ k ∧ k ≤ j ∧ j ≤ ts.length ∧ s.range = (S σ j, E σ k) ∧ WS src σ ts.length k s
+    ∃ j k, rest.length + 1 ≤ k ∧ k ≤ j ∧ j ≤ ts.length ∧ s.range = (S σ j, E σ k) ∧ WS src σ ts.length k s ∧
+      ((∀ r, ts ≠ .op .at :: r) → j = ts.length) ∧ derivedEnd s = some s.range.2
 
 /-- …when the start `st = S σ j0` is handed in -/
 @[reducible] def PostCs (src : List Nat) (σ : SpanTab) (j0 : Nat) (ts : List Tok) (s : RStmt) (rest : List Tok) : Prop :=
-  rest.length < ts.length ∧ ∃ k, rest.length + 1 ≤ k ∧ k ≤ ts.length ∧ s.range = (S σ j0, E σ k) ∧ WS src σ j0 k s
+  rest.length < ts.length ∧ ∃ k, rest.length + 1 ≤ k ∧ k ≤ ts.length ∧ s.range = (S σ j0, E σ k) ∧ WS src σ j0 k s ∧
+    derivedEnd s = some s.range.2
 
 macro "sgp" : tactic =>
   `(tactic| grind [Ext.exact, Ext.named, Ext.paren, RExpr.range, RStmt.range, RPattern.range, RTypeParam.range,
-    RHandler.range, RCase.range, RCase.body, RHandler.body])
+    RHandler.range, RCase.range, RCase.body, RHandler.body, derivedEnd])
 
 open Lean in
 /-- `rstep1 σ [facts]` (one goal left by `fun_cases`): fold the span accessors into `S`/`E`/`Sp`, instantiate the given
